@@ -2,7 +2,10 @@
 
 package vsched
 
-import "runtime"
+import (
+	"runtime"
+	"unsafe"
+)
 
 //go:norace
 func raceDisable() { runtime.RaceDisable() }
@@ -11,3 +14,14 @@ func raceDisable() { runtime.RaceDisable() }
 func raceEnable() { runtime.RaceEnable() }
 
 const RaceEnabled = true
+
+// RaceErrors is the number of races the detector has reported so far.
+func RaceErrors() int { return runtime.RaceErrors() }
+
+var joinToken byte
+
+//go:norace
+func raceReleaseMergeJoin() { runtime.RaceReleaseMerge(unsafe.Pointer(&joinToken)) }
+
+//go:norace
+func raceAcquireJoin() { runtime.RaceAcquire(unsafe.Pointer(&joinToken)) }
